@@ -34,7 +34,8 @@ META = {
                 'doit/cmd_base.py::DoitCmdBase.execute', 'doit/task.py::Task.init_options',
                 'doit/task.py::Task._expand_task_dep', 'doit/loader.py::_generate_task_from_yield'],
     'technique': 'Lean 4 proofs about an executable model of selection (function = declarative relation, fuel '
-                 'sufficiency, --single invariant, closure = least closed set) + differential correspondence through '
+                 'sufficiency, --single invariant, closure = least closed set, order clause by a phase invariant of the '
+                 'serial dispatcher in the run model M1) + differential correspondence through '
                  'TaskControl.process and the run command + Lean monitor on observed runs',
     'design_ref': '§5 C12, §4 M8',
     'level_text': 'Machine-checked: the model of TaskControl._process_filter/_filter_tasks selects exactly what the '
@@ -43,14 +44,16 @@ META = {
                   'task; a task named again is selected again and parses nothing), and errs iff the '
                   'arguments do not resolve; --single empties the task_dep of every named task (of the sub-tasks for a '
                   'group) and keeps all named tasks; no argument => default_tasks else all tasks in definition order; '
-                  'the processed set is the least set closed under task_dep/calc_dep/setup-of-running-tasks. The model '
+                  'the processed set is the least set closed under task_dep/calc_dep/setup-of-running-tasks; the serial '
+                  'dispatcher (run model M1) starts a later-selected task before an earlier-selected one only if it is in '
+                  'the closure of the tasks selected up to the earlier one. The model '
                   'is tied to doit on every run by driving TaskControl.process and the run command on generated and '
                   'exhaustively enumerated small cases; the Lean monitor evaluates the full statement on the observed '
                   'runs (exit code, processed set, start order).',
     'level_note': 'filter_spec is at full strength since /repo dcfe778 (F-C12b); the behaviour before that fix and '
-                  'before 07d690a is kept as reinit_counterexample / pinned_single_counterexample. The order clause is proved for every start order satisfying the chunk abstraction of the serial dispatcher (chunkedB, validated on every observed run), not for the dispatcher itself (def order_full needs M1). Closure '
-                  'completeness is proved relative to the decidable certificate closedB, which the driver evaluates '
-                  'on every case. fnmatch is modelled for `*`, `?` and literals only; getopt for short clusters and '
+                  'before 07d690a is kept as reinit_counterexample / pinned_single_counterexample. The order clause is a theorem about the dispatcher itself (order_full / order_run_model, on the run model M1): in every reachable state of every serial run whose edges are edges of the static graph (Represents), a selected task overtakes an earlier selected task a only if it is reachable - transitively, over task_dep, calc_dep, calc results and setup-tasks of tasks that run - from a task selected no later than a; order (for start orders satisfying the chunk abstraction chunkedB) is kept, but chunkedB itself is not an invariant of the run model (chunk_not_invariant: a failing dependency under --continue) and is only compared on the observed runs. Closure '
+                  'completeness is unconditional (closure_closed: ts.length expansion rounds reach the fixed point); the '
+                  'certificate closedB is still evaluated by the driver on every case. fnmatch is modelled for `*`, `?` and literals only; getopt for short clusters and '
                   'exact long names; delayed tasks only at the TaskControl tier; regex targets not modelled.',
     'rule': 'task sets of 1-5 creators (plain tasks, groups with 1-3 sub-tasks, targets some of which are spelled like '
             'task names, names sharing prefixes, params/pos_arg, uptodate tasks, wild-card/setup/calc/implicit deps, '
